@@ -564,6 +564,9 @@ impl Mapper<Size2MiB> for RecursivePageTable<'_> {
         if p3_entry.is_unused() {
             return Err(FlagUpdateError::PageNotMapped);
         }
+        if p3_entry.flags().contains(PageTableFlags::HUGE_PAGE) {
+            return Err(FlagUpdateError::ParentEntryHugePage);
+        }
 
         p3_entry.set_flags(flags);
 
@@ -741,6 +744,9 @@ impl Mapper<Size4KiB> for RecursivePageTable<'_> {
         if p3_entry.is_unused() {
             return Err(FlagUpdateError::PageNotMapped);
         }
+        if p3_entry.flags().contains(PageTableFlags::HUGE_PAGE) {
+            return Err(FlagUpdateError::ParentEntryHugePage);
+        }
 
         p3_entry.set_flags(flags);
 
@@ -769,6 +775,9 @@ impl Mapper<Size4KiB> for RecursivePageTable<'_> {
 
         if p2_entry.is_unused() {
             return Err(FlagUpdateError::PageNotMapped);
+        }
+        if p2_entry.flags().contains(PageTableFlags::HUGE_PAGE) {
+            return Err(FlagUpdateError::ParentEntryHugePage);
         }
 
         p2_entry.set_flags(flags);
